@@ -17,7 +17,7 @@ VOCAB = [
     "{", "}", "[", "]", "(", ")", ":", ";", "=", "'", ".", "+", "-", "*", "/", "\\",
     "\n", "\n", " ", "    ", "\t", "\r",
     "0", "1", "2", "7", "8", "255", "256", "65535", "65536", "0x0", "0xff", "0xFFFFFFFFFFFFFFFF", "18446744073709551616",
-    '"a.bitproto"', '"b.bitproto"', '"nosuch.bitproto"', '""', '"x\\ty"', '"\\q"', '"unterminated',
+    '"a.bitproto"', '"b.bitproto"', '"nosuch.bitproto"', '""', '"x\\ty"', '"\\q"', '"unterminated', '"an unterminated string literal that goes on and on for a while', '"trailing backslash \\\\',
     "// comment", "//", "/",
     "Foo", "Bar", "foo", "bar", "K", "X_Y", "a", "b", "Foo.Bar", "a.Foo", "max_bytes", "c.name_prefix", "c.struct_packing_alignment", "py.module_name", "go.package_path",
     "é", "\x00", "\x7f", "@", "#", "$", "`", " ",
